@@ -103,6 +103,7 @@ type Header struct {
 	Required    bool   `json:"required,omitempty"`
 	Description string `json:"description,omitempty"`
 	Example     string `json:"example,omitempty"`
+	Deprecated  bool   `json:"deprecated,omitempty"`
 }
 
 type Method struct {
